@@ -105,6 +105,19 @@ def asgCost (ped : Ped) (cp : PartCosts) (asg : Nat) : Nat :=
     let c := cp.getD p (0, 0)
     acc + (if alleleOf asg p = 0 then c.1 else c.2)) 0
 
+/-- `set_partitioning`: accumulate `cost_partition` from the entries of a column.  An entry is
+`(individual index, haplotype 0/1 of its read in the bipartition, allele 0 = REF / 1 = ALT / other = blank, phred)`;
+a REF entry costs its phred score if the partition's allele is 1, an ALT entry if it is 0 -/
+def costsFromEntries (ped : Ped) (t : Nat) (entries : List (Nat × Nat × Nat × Nat)) : PartCosts :=
+  entries.foldl (fun cp e =>
+    match hapToPartition ped t e.1 with
+    | none => cp
+    | some p =>
+      let part := if e.2.1 = 0 then p.1 else p.2
+      if e.2.2.1 = 0 then cp.modify part (fun c => (c.1, c.2 + e.2.2.2))
+      else if e.2.2.1 = 1 then cp.modify part (fun c => (c.1 + e.2.2.2, c.2))
+      else cp) (List.replicate (partitionCount ped) (0, 0))
+
 /-- minimum of `cost` over the candidates satisfying `pred` (`none` = `UINT_MAX`) -/
 def minCostWith (cost : Nat → Nat) (pred : Nat → Bool) : List Nat → Option Nat
   | [] => none
